@@ -395,8 +395,37 @@ def replay_only_nodes(r):
     return False, {'function': 'BaseMatcher.node_path_to_only_nodes', 'note': 'no failing sequence of <= 3 states over 3 labels'}
 
 
+def replay_get_path(r):
+    """real SimpleMatcher whose stored state sequence is a walk over four nodes, first / last matched position before and beyond
+    the middle of the edge: every accessor of the nodes-only view must return a contiguous part of the converted list"""
+    from types import SimpleNamespace as NS
+    from leuvenmapmatching.matcher.simple import SimpleMatcher
+    from leuvenmapmatching.map.inmem import InMemMap
+    bad = []
+    for states in ([(0, 1), (1, 2), (2, 3)], [0, (0, 1), 1, (1, 2), 2], [(0, 1), (1, 2), (2, 3), (3, 4), (4, 5)]):
+        for t_first in (0.25, 0.75):
+            for t_last in (0.25, 0.75):
+                m = SimpleMatcher(InMemMap('replay', use_latlon=False))
+                m.node_path = list(states)
+                m.lattice_best = [NS(edge_m=NS(ti=(t_first if i == 0 else t_last if i == len(states) - 1 else 0.5), p2=(0, 0))) for i in range(len(states))]
+                conv = m.node_path_to_only_nodes(list(states))
+                for nm, f in (('get_path()', lambda: m.get_path()), ('get_path(only_closest=False)', lambda: m.get_path(only_closest=False)),
+                              ('path_pred_onlynodes', lambda: m.path_pred_onlynodes), ('path_pred_onlynodes_withjumps', lambda: m.path_pred_onlynodes_withjumps)):
+                    try:
+                        got = f()
+                    except Exception as e:
+                        bad.append(f"{nm} on states {states}: raised {e!r}")
+                        continue
+                    part = isinstance(got, list) and any(conv[i:i + len(got)] == got for i in range(len(conv) + 1))
+                    if not part or m.node_path != list(states):
+                        bad.append(f"{nm} on states {states} (first ti {t_first}, last ti {t_last}): {got}; the nodes-only view of the states is {conv}")
+    return bool(bad), {'function': 'BaseMatcher.get_path / path_pred_onlynodes', 'failed': bad[:6]}
+
+
 def replayer(r):
     n = r.ob.name
+    if n.startswith('BaseMatcher.get_path') or n.startswith('BaseMatcher.path_pred_onlynodes'):
+        return replay_get_path(r)
     if n.startswith('BaseMatcher.node_path_to_only_nodes'):
         return replay_only_nodes(r)
     if n.startswith('BaseMatcher.increase_max_lattice_width'):
